@@ -545,7 +545,52 @@ def replay_record(p):
 
 
 def replay_readers(p):
-    """write a real file with the given number of cards / DIRECTIO and let every reader count/skip"""
+    """a real file whose header has exactly the given number of cards (+ END) and DIRECTIO value, written by the real
+    _make_header; every reader must skip / count what the writer emitted.  Card counts around the candidate (and the
+    512-aligned ones) are tried as well."""
+    import os
+    import shutil
+    import tempfile
+    from setigen.voltage import backend as bk, polyphase_filterbank as pf, quantization as qz, antenna as an, raw_utils as ru
+    be = bk.RawVoltageBackend(an.Antenna(sample_rate=1024.0, num_pols=2, seed=1), qz.RealQuantizer(), pf.PolyphaseFilterbank(num_taps=2, num_branches=4),
+                              qz.ComplexQuantizer(), start_chan=0, num_chans=2, block_size=1024, blocks_per_file=4, num_subblocks=1)
+    dv = p['directio']
+    base = ['BLOCSIZE', 'PKTIDX'] + (['DIRECTIO'] if dv is not None else [])
+    d = tempfile.mkdtemp(prefix='c04r_', dir='/var/tmp')
+    msgs = []
+    try:
+        for cards in sorted({max(p['cards'], len(base)), 31, 63, 95, 5, 32, 64, len(base)}):
+            hd = {'BLOCSIZE': 1024, 'PKTIDX': 0}
+            if dv is not None:
+                hd['DIRECTIO'] = dv
+            for i in range(cards - len(hd)):
+                hd[f'K{i:03d}'] = i
+            fn = os.path.join(d, f'r{cards}.0000.raw')
+            sizes = []
+            with open(fn, 'wb') as f:
+                for b in range(3):
+                    at = f.tell()
+                    be._make_header(f, hd)
+                    sizes.append(f.tell() - at)
+                    f.write(bytes(1024))
+            hdr = ru.read_header(fn)
+            got = ru.get_header_size(hdr)
+            if got != sizes[0]:
+                msgs.append(f"get_header_size = {got} for {cards} cards + END (DIRECTIO={dv!r}); the writer emitted {sizes[0]} bytes")
+            try:
+                nb = ru.get_blocks_in_file(fn)
+            except Exception as e:
+                nb = f"{type(e).__name__}"
+            if nb != 3:
+                msgs.append(f"get_blocks_in_file = {nb} for a file of 3 blocks with {cards} cards (DIRECTIO={dv!r})")
+            if msgs:
+                break
+    except Exception as e:
+        msgs.append(f"raised {type(e).__name__}: {e}")
+    finally:
+        shutil.rmtree(d, ignore_errors=True)
+    if msgs:
+        return True, '; '.join(msgs[:2])
     pp = dict(fn='record', k_extra=max(0, p['cards'] - 16), directio=p['directio'], nblocks=5, bpf=5, nant=1, template=False)
     return replay_record(pp)
 
